@@ -15,3 +15,4 @@ import EmuVerif.Props.C07
 #print axioms EmuVerif.Props.C07.early_accept_witness
 #print axioms EmuVerif.Props.C07.neglected_second_order_term
 #print axioms EmuVerif.Props.C07.public_krylov_exp_uses_callers_tolerances
+#print axioms EmuVerif.Props.C07.at_least_one_iteration
